@@ -613,8 +613,8 @@ declaratortypes(struct scope *s, struct list *result, char **name, struct scope 
 					t->u.func.isvararg = true;
 					break;
 				}
-				if (tok.kind == TRPAREN)
-					break;
+				if (tok.kind == TRPAREN && !d)
+					break;  /* empty parameter list (not a trailing comma) */
 				d = parameter(s);
 				if (d->name) {
 					if (scopegetdecl(s, d->name, false))
